@@ -1061,8 +1061,8 @@ class SE3_AdjTXa(torch.autograd.Function):
     @staticmethod
     def backward(ctx, grad_output):
         X, a = ctx.saved_tensors
-        a_grad = SE3_AdjXa.apply(X, grad_output)
-        X_grad = -a.unsqueeze(-2) @ se3_adj(a_grad)
+        a_grad = (grad_output.unsqueeze(-2) @ SE3_Adj(SE3_Inv.apply(X))).squeeze(-2)
+        X_grad = a_grad.unsqueeze(-2) @ se3_adj(a)
         zero = torch.zeros(X.shape[:-1]+(1,), device=X.device, dtype=X.dtype)
         return torch.cat((X_grad.squeeze(-2), zero), dim = -1), a_grad
 
@@ -1107,8 +1107,8 @@ class Sim3_AdjTXa(torch.autograd.Function):
     @staticmethod
     def backward(ctx, grad_output):
         X, a = ctx.saved_tensors
-        a_grad = Sim3_AdjXa.apply(X, grad_output)
-        X_grad = -a.unsqueeze(-2) @ sim3_adj(a_grad)
+        a_grad = (grad_output.unsqueeze(-2) @ Sim3_Adj(Sim3_Inv.apply(X))).squeeze(-2)
+        X_grad = a_grad.unsqueeze(-2) @ sim3_adj(a)
         zero = torch.zeros(X.shape[:-1]+(1,), device=X.device, dtype=X.dtype)
         return torch.cat((X_grad.squeeze(-2), zero), dim = -1), a_grad
 
